@@ -321,38 +321,34 @@ Definition addrs_of (news : list (option addr * N)) : list addr :=
   flat_map (fun n => match fst n with Some a => [a] | None => [] end) news.
 
 Lemma admit_spec news : forall m m' cs,
-  admission news m = (m', cs) -> nodupb (addrs_of news) = true ->
-  forallb (fun a => negb (mem a (keys m))) (addrs_of news) = true ->
+  admission news m = (m', cs) ->
   (nodupb (keys m) = true -> nodupb (keys m') = true) /\
   forall b, mem b (keys m') = mem b (keys m) || mem b (addrs_of news) /\
             sessions (mem b (keys m)) (proj b cs) = Some (mem b (keys m')) /\
             msgs_of (proj b cs) = [] /\
-            count EC (proj b cs) = (if mem b (addrs_of news) then 1 else 0)%nat /\
-            count ED (proj b cs) = 0%nat.
+            count EC (proj b cs) = length (filter (N.eqb b) (addrs_of news)).
 Proof.
-  induction news as [|[[a|] lp] r IH]; intros m m' cs E ND FR; cbn [admission] in E.
+  induction news as [|[[a|] lp] r IH]; intros m m' cs E; cbn [admission] in E.
   - injection E as <- <-. split; [auto|]. intros b. cbn. rewrite orb_false_r. repeat split; reflexivity.
-  - destruct (admission r (insert a lp m)) as [m1 ds1] eqn:A. injection E as <- <-.
-    cbn [addrs_of flat_map fst app] in ND, FR. fold (addrs_of r) in ND, FR.
-    cbn [nodupb] in ND. apply andb_true_iff in ND as [NA ND]. apply negb_true_iff in NA.
-    cbn [forallb] in FR. apply andb_true_iff in FR as [Fa FR]. apply negb_true_iff in Fa.
-    assert (FR1 : forallb (fun x => negb (mem x (keys (insert a lp m)))) (addrs_of r) = true).
-    { apply forallb_forall. intros x Hx. rewrite forallb_forall in FR. rewrite keys_insert.
-      specialize (FR x Hx). apply negb_true_iff in FR. rewrite FR. cbn.
-      destruct (N.eqb x a) eqn:E; [|reflexivity]. apply N.eqb_eq in E; subst x. apply mem_In in Hx. congruence. }
-    destruct (IH _ _ _ A ND FR1) as [I1 I2].
-    split; [intros H; apply I1; now apply nodup_insert|].
-    intros b. destruct (I2 b) as (J1 & J2 & J3 & J4 & J5).
-    cbn [addrs_of flat_map fst app]. fold (addrs_of r). rewrite mem_cons.
-    rewrite keys_insert in J1, J2.
-    cbn [proj flat_map ev_of]. fold (proj b ds1).
+  - destruct (admission r (insert a lp (remove a m))) as [m1 ds1] eqn:A. injection E as <- <-.
+    destruct (IH _ _ _ A) as [I1 I2].
+    split; [intros H; apply I1; apply nodup_insert; now apply nodup_remove|].
+    intros b. destruct (I2 b) as (J1 & J2 & J3 & J4).
+    rewrite keys_insert, keys_remove in J1, J2.
+    assert (AD : addrs_of ((Some a, lp) :: r) = a :: addrs_of r) by reflexivity. rewrite AD. clear AD.
+    rewrite mem_cons. cbn [filter].
+    assert (P : proj b ((if mem a (keys m) then [Disconnect a] else []) ++ Connect a :: ds1) =
+                (if N.eqb b a then (if mem a (keys m) then [ED] else []) ++ [EC] else []) ++ proj b ds1).
+    { rewrite proj_app. change (proj b (Connect a :: ds1)) with (ev_of b (Connect a) ++ proj b ds1).
+      cbn [ev_of]. destruct (mem a (keys m)); cbn [proj flat_map ev_of app]; destruct (N.eqb b a); reflexivity. }
+    rewrite P. clear P.
     destruct (N.eqb b a) eqn:E.
-    + apply N.eqb_eq in E; subst b. rewrite Fa in *. cbn [orb app] in *. rewrite NA in J4.
-      cbn [sessions msgs_of flat_map app count filter ev_eqb length].
-      fold (msgs_of (proj a ds1)). fold (count EC (proj a ds1)). fold (count ED (proj a ds1)).
-      rewrite J4. repeat split; auto.
-    + cbn [app orb]. rewrite orb_false_r in J1, J2. repeat split; auto.
-  - cbn [addrs_of flat_map fst app] in ND, FR. fold (addrs_of r) in ND, FR. now apply IH.
+    + apply N.eqb_eq in E; subst b. cbn [negb] in J1, J2. rewrite andb_false_r in J1, J2. cbn [orb] in J1, J2.
+      rewrite J1 in J2. rewrite J1. split; [now rewrite orb_true_r|].
+      rewrite sessions_app, msgs_of_app, count_app, J3, J4.
+      destruct (mem a (keys m)); cbn; rewrite J2; repeat split; reflexivity.
+    + cbn [negb] in J1, J2. rewrite andb_true_r, orb_false_r in J1, J2. cbn [app orb]. repeat split; auto.
+  - cbn [addrs_of flat_map fst app]. fold (addrs_of r). now apply IH.
 Qed.
 
 (* ---------------------------------------------------------------------------------------------- *)
@@ -396,14 +392,14 @@ Proof.
   destruct (phase2 cfg (will_ping cfg st inp) (i_per inp) (i_order inp) (streams st)) as [m ds2 ws2|m ds2|];
     [|discriminate|contradiction].
   destruct P2 as (K1 & K2 & K3 & K4 & K5).
-  apply andb_true_iff in W as [[NA FR]%andb_true_iff OK].
+  rename W into OK.
   destruct (admission (i_new inp) m) as [m' cs] eqn:A. cbn [fst] in OK.
   intros E; injection E as <- <- <-. cbn [streams].
-  destruct (admit_spec _ _ _ _ A NA FR) as [A1 A2].
+  destruct (admit_spec _ _ _ _ A) as [A1 A2].
   split; [|split; [exists ws2; split; [exact K5|reflexivity]|exact OK]].
-  split; [auto|]. intros b. destruct (A2 b) as (J1 & J2 & J3 & J4 & J5). destruct (K4 b) as (S1 & S2 & S3 & S4).
+  split; [auto|]. intros b. destruct (A2 b) as (J1 & J2 & J3 & J4). destruct (K4 b) as (S1 & S2 & S3 & S4).
   rewrite proj_app, sessions_app, S1, J2, msgs_of_app, S2, J3, app_nil_r, count_app, S3, J4.
-  split; [reflexivity|]. split; [reflexivity|]. rewrite admitted_addrs, occ_nodup by exact NA. reflexivity.
+  split; [reflexivity|]. split; reflexivity.
 Qed.
 
 Lemma poll_blocked cfg st inp st' ds :
@@ -788,10 +784,73 @@ Definition readmit_hist : list inputs :=
        i_new := [(Some 7, 0); (Some 7, 0)]; i_out := [] |} ].
 
 Lemma readmission_breaks_sessions :
-  t_disp (run cfg_all (init 0) readmit_hist) = [Connect 7; Connect 7] /\
-  sessions false (proj 7 (t_disp (run cfg_all (init 0) readmit_hist))) = None /\
-  wf_histb cfg_all (init 0) readmit_hist = false.
+  wf_histb cfg_all (init 0) readmit_hist = true /\
+  t_disp (run_old cfg_all (init 0) readmit_hist) = [Connect 7; Connect 7] /\
+  sessions false (proj 7 (t_disp (run_old cfg_all (init 0) readmit_hist))) = None /\
+  t_disp (run cfg_all (init 0) readmit_hist) = [Connect 7; Disconnect 7; Connect 7] /\
+  sessions false (proj 7 (t_disp (run cfg_all (init 0) readmit_hist))) = Some true.
 Proof. vm_compute. repeat split. Qed.
+
+(* the same for a stream whose end went unnoticed (reads return "nothing yet" for ever) and whose address is reused *)
+Definition stale_hist : list inputs :=
+  [ {| i_shutdown := false; i_order := []; i_ping_clock := 0; i_ping_set := 0; i_per := [];
+       i_new := [(Some 7, 0)]; i_out := [] |};
+    {| i_shutdown := false; i_order := [7]; i_ping_clock := 0; i_ping_set := 0;
+       i_per := [(7, {| pa_recv := [RMsg 1; RNone]; pa_pong := None; pa_clock := 0 |})]; i_new := []; i_out := [] |};
+    {| i_shutdown := false; i_order := [7]; i_ping_clock := 0; i_ping_set := 0;
+       i_per := [(7, {| pa_recv := [RNone]; pa_pong := None; pa_clock := 0 |})]; i_new := [(Some 7, 5)]; i_out := [] |};
+    {| i_shutdown := false; i_order := [7]; i_ping_clock := 0; i_ping_set := 0;
+       i_per := [(7, {| pa_recv := [RMsg 2; RNone]; pa_pong := None; pa_clock := 0 |})]; i_new := []; i_out := [] |} ].
+
+Lemma stale_stream_old_code :
+  wf_histb cfg_all (init 0) stale_hist = true /\
+  t_disp (run_old cfg_all (init 0) stale_hist) = [Connect 7; Message 7 1; Connect 7; Message 7 2] /\
+  t_disp (run cfg_all (init 0) stale_hist) = [Connect 7; Message 7 1; Disconnect 7; Connect 7; Message 7 2].
+Proof. vm_compute. repeat split. Qed.
+
+(* under the freshness assumption the code before the repair behaves like the repaired code *)
+Lemma remove_absent a m : mem a (keys m) = false -> remove a m = m.
+Proof.
+  induction m as [|[c w] m IH]; [reflexivity|]. cbn [keys map fst]. rewrite mem_cons.
+  intros [H1 H2]%orb_false_iff. cbn [remove filter fst]. rewrite H1. cbn [negb]. f_equal. now apply IH.
+Qed.
+
+Lemma admission_old_fresh news : forall m,
+  nodupb (addrs_of news) = true -> forallb (fun a => negb (mem a (keys m))) (addrs_of news) = true ->
+  admission_old news m = admission news m.
+Proof.
+  induction news as [|[[a|] lp] r IH]; intros m ND FR; cbn [admission admission_old]; [reflexivity| |].
+  - change (addrs_of ((Some a, lp) :: r)) with (a :: addrs_of r) in ND, FR.
+    cbn [nodupb] in ND. apply andb_true_iff in ND as [NA ND]. apply negb_true_iff in NA.
+    cbn [forallb] in FR. apply andb_true_iff in FR as [Fa FR]. apply negb_true_iff in Fa.
+    rewrite Fa, (remove_absent a m Fa). cbn [app].
+    rewrite IH; [reflexivity|exact ND|].
+    apply forallb_forall. intros x Hx. rewrite forallb_forall in FR. rewrite keys_insert.
+    specialize (FR x Hx). apply negb_true_iff in FR. rewrite FR. cbn.
+    destruct (N.eqb x a) eqn:E; [|reflexivity]. apply N.eqb_eq in E; subst x. apply mem_In in Hx. congruence.
+  - apply IH; assumption.
+Qed.
+
+Lemma poll_old_fresh cfg st inp : fresh_inputsb cfg st inp = true -> poll_old cfg st inp = poll cfg st inp.
+Proof.
+  unfold fresh_inputsb, poll_old, poll. destruct (i_shutdown inp); [reflexivity|].
+  destruct (phase2 cfg (will_ping cfg st inp) (i_per inp) (i_order inp) (streams st)); try reflexivity.
+  intros [H1 H2]%andb_true_iff. rewrite admission_old_fresh; [reflexivity|exact H1|exact H2].
+Qed.
+
+Fixpoint fresh_histb (cfg : config) (st : app_state) (hist : list inputs) : bool :=
+  match hist with
+  | [] => true
+  | inp :: rest =>
+    fresh_inputsb cfg st inp && match poll cfg st inp with Next st' _ _ => fresh_histb cfg st' rest | _ => true end
+  end.
+
+Lemma run_old_fresh cfg hist : forall st, fresh_histb cfg st hist = true -> run_old cfg st hist = run cfg st hist.
+Proof.
+  induction hist as [|inp rest IH]; intros st F; cbn [run run_old]; [reflexivity|].
+  cbn [fresh_histb] in F. apply andb_true_iff in F as [F1 F2]. rewrite (poll_old_fresh _ _ _ F1).
+  destruct (poll cfg st inp); try reflexivity. now rewrite IH.
+Qed.
 
 (* a receive call that does not return: the shutdown flag raised afterwards is never looked at *)
 Definition blocked_hist : list inputs :=
@@ -880,11 +939,13 @@ Qed.
 
 Lemma thm_readmission_refuted :
   exists (cfg : config) (hist : list inputs) (a : addr),
-    wf_histb cfg (init 0) hist = false /\
-    t_disp (run cfg (init 0) hist) = [Connect a; Connect a] /\
-    sessions false (proj a (t_disp (run cfg (init 0) hist))) = None.
+    wf_histb cfg (init 0) hist = true /\
+    t_disp (run_old cfg (init 0) hist) = [Connect a; Message a 1; Connect a; Message a 2] /\
+    sessions false (proj a (t_disp (run_old cfg (init 0) hist))) = None /\
+    t_disp (run cfg (init 0) hist) = [Connect a; Message a 1; Disconnect a; Connect a; Message a 2].
 Proof.
-  exists cfg_all, readmit_hist, 7%N. destruct readmission_breaks_sessions as (H1 & H2 & H3). now repeat split.
+  exists cfg_all, stale_hist, 7%N. destruct stale_stream_old_code as (H1 & H2 & H3).
+  split; [exact H1|]. split; [exact H2|]. split; [now rewrite H2|exact H3].
 Qed.
 
 Lemma thm_blocked_receive_refuted :
